@@ -62,6 +62,14 @@ func vPreState(c *Conn, hook *vRecvHook, stage int) *vPipeCaller {
 		c.answers[7] = errorAnswer(c, 7, vFault{})
 	case 2: // answer 7 not yet returned: pipelined calls are queued on its PipelineCaller
 		c.answers[7] = &answer{c: c, id: 7, pcall: pc}
+	case 3: // answer 7 is a returned Bootstrap answer whose result is a locally hosted capability
+		t := c.transport.(*vTransport)
+		fn, fs := t.faultNewMessage, t.faultSend
+		t.faultNewMessage, t.faultSend = false, false
+		c.bootstrap = capnp.NewClient(&vRecvHook{})
+		vAssume(c.handleBootstrap(c.bgctx, 7) == nil)
+		t.faultNewMessage, t.faultSend = fn, fs
+		t.lastWhich, t.returnIDs, t.delivered = nil, nil, nil
 	}
 	return pc
 }
@@ -70,7 +78,7 @@ func VH_C08_handle_call() {
 	t := &vTransport{faultNewMessage: true, faultSend: true}
 	c := vNewConn(t, nil)
 	hook := &vRecvHook{sync: vNondetBool()}
-	stage := vConcI(int(vNondetU8()), 3)
+	stage := vConcI(int(vNondetU8()), 4)
 	pc := vPreState(c, hook, stage)
 	m := vRecvMsg()
 	call, err := m.NewCall()
@@ -132,6 +140,9 @@ func VH_C08_handle_call() {
 	vRegion("params_unreadable", params == 0)
 	vRegion("target_answer_not_returned", stage == 2)
 	released := 0
+	if vNondetBool() {
+		c.bgcancel() // the connection is shutting down while the message is handled
+	}
 	herr := c.handleCall(c.bgctx, call, func() { released++ })
 	vReach("returned")
 	vQuiescent(c, "C08.call")
@@ -185,6 +196,10 @@ func VH_C08_handle_return() {
 		ret.SetTakeFromOtherQuestion(vNondetU32())
 	}
 	released := 0
+	closing := vNondetBool()
+	if closing {
+		c.bgcancel() // the connection is shutting down while the message is handled
+	}
 	herr := c.handleReturn(c.bgctx, ret, func() { released++ })
 	vReach("returned")
 	vQuiescent(c, "C08.return")
@@ -239,7 +254,7 @@ func VH_C08_handle_disembargo_unknown() {
 	t := &vTransport{faultNewMessage: true, faultSend: true}
 	c := vNewConn(t, nil)
 	hook := &vRecvHook{}
-	vPreState(c, hook, vConcI(int(vNondetU8()), 3))
+	vPreState(c, hook, vConcI(int(vNondetU8()), 4))
 	m := vRecvMsg()
 	d, err := m.NewDisembargo()
 	vAssume(err == nil)
@@ -250,7 +265,11 @@ func VH_C08_handle_disembargo_unknown() {
 	} else {
 		pa, err := tgt.NewPromisedAnswer()
 		vAssume(err == nil)
-		pa.SetQuestionId(vNondetU32())
+		if vNondetBool() {
+			pa.SetQuestionId(7)
+		} else {
+			pa.SetQuestionId(vNondetU32())
+		}
 	}
 	switch vConcI(int(vNondetU8()), 4) {
 	case 0:
@@ -301,4 +320,33 @@ func vConcI(x, n int) int {
 	}
 	vAssume(false)
 	return 0
+}
+
+// an unknown message that cannot be echoed (it contains an out-of-bounds pointer, so copying it into
+// the Unimplemented message fails) is reported, and the connection stays usable
+func VH_C08_unknown_message_uncopyable() {
+	t := &vTransport{faultNewMessage: true, faultSend: true}
+	c := vNewConn(t, nil)
+	m := vRecvMsg()
+	_, err := m.NewProvide()
+	vAssume(err == nil)
+	data, err := m.Message().Marshal()
+	vAssume(err == nil && len(data) >= 40)
+	// the root struct has one data word and one pointer: its pointer word is at byte 8 (header)
+	// + 8 (root pointer) + 8 (data word) = 24. Make it a struct pointer far outside the segment.
+	for i, b := range []byte{0x00, 0x40, 0x00, 0x00, 0x01, 0x00, 0x00, 0x00} {
+		data[24+i] = b
+	}
+	msg2, err := capnp.Unmarshal(data)
+	vAssume(err == nil)
+	recv, err := rpccp.ReadRootMessage(msg2)
+	vAssume(err == nil)
+	herr := c.handleUnknownMessage(c.bgctx, recv)
+	vReach("returned")
+	vQuiescent(c, "C08.uncopyable")
+	_ = herr
+	// the connection is still usable: a Bootstrap request is answered
+	t.faultNewMessage, t.faultSend = false, false
+	vAssert(c.handleBootstrap(c.bgctx, 9) == nil, "C08.uncopyable.connection-still-answers")
+	vQuiescent(c, "C08.uncopyable.after")
 }
